@@ -12,6 +12,7 @@ case kinds
   {"kind": "expand", "rsmi": r}                                                CanonRSMI.expand_aam(r): map numbers of every atom afterwards
   {"kind": "balstr", "rsmis": [..]}                                            rsmi_balance_check at string level (split, formula ==, ValueError)
   {"kind": "equiv", "rsmis": [..], "method": "RC"|"ITS"}                       AAMValidator.check_equivariant_graph on the graphs of the strings
+  {"kind": "subgraph", "rsmi": r, "side": 0|1, "keep": [ids]}                  NormalizeAAM.extract_subgraph / reset_indices_and_atom_map on a parsed side
   {"kind": "fixaam", "rsmi": r}                                                FixAAM.fix_aam_rsmi(r) parsed again = the graphs of r with every id + 1 (+ the norm oracle)
 
 Observables (graph level): canonical reactant graph, mapping_pairs, canonical product graph (node ids, all attributes);
@@ -378,6 +379,15 @@ def impl(case):
         return ST.balstr_impl(case)
     if k == "equiv":
         return ST.equiv_impl(case)
+    if k == "subgraph":
+        from synkit.Graph.ITS.normalize_aam import NormalizeAAM
+        gh = _valid_graphs(case["rsmi"])
+        if gh is None:
+            return ["unparsable"]
+        g = gh[case.get("side", 0)]
+        sub = NormalizeAAM.extract_subgraph(g, list(case["keep"]))
+        n = NormalizeAAM()
+        return [E.obs_mgraph(sub), E.obs_mgraph(n.reset_indices_and_atom_map(sub)), E.obs_mgraph(n.reset_indices_and_atom_map(g, "atom_map"))]
     if k == "fixaam":
         from synkit.Chem.Reaction.fix_aam import FixAAM
         gh = _valid_graphs(FixAAM.fix_aam_rsmi(case["rsmi"]))
@@ -444,6 +454,16 @@ def coq_case(case):
             return ST.expand_term(case["rsmi"])
         if k == "balstr":
             return ST.balstr_term(case)
+        if k == "subgraph":
+            gh = _valid_graphs(case["rsmi"])
+            if gh is None or not _simple(*gh):
+                return None
+            from synkit.Graph.ITS.normalize_aam import NormalizeAAM
+            g = gh[case.get("side", 0)]
+            # list(subgraph.nodes()): networkx iterates the copy of a subgraph VIEW in the order of a Python set when fewer nodes are kept
+            # than the graph has (an oracle input of the model)
+            order = list(NormalizeAAM.extract_subgraph(g, list(case["keep"])).nodes())
+            return "run_subgraph %s [%s] [%s]" % (E.coq_mgraph(E.from_nx(g)), "; ".join(E.cN(n) for n in case["keep"]), "; ".join(E.cN(n) for n in order))
         if k == "fixaam":
             gh = _valid_graphs(case["rsmi"])
             if gh is None or not _simple(*gh):
@@ -818,6 +838,8 @@ def nontrivial(case, obs):
         return isinstance(obs, list) and len(obs) >= 2
     if k == "fixaam":
         return isinstance(obs, list) and len(obs) == 2
+    if k == "subgraph":
+        return isinstance(obs, list) and len(obs) == 3 and len(case["keep"]) >= 2
     return (k == "std" and bool(case.get("variants"))) or k == "norm"
 
 
@@ -847,7 +869,7 @@ def distribution(cases, obss):
             if c["backend"] == "nauty" and n > NAUTY_MAX_ATOMS:
                 outside["nauty_too_big"] += 1
     d["outside_model_bounds"] = outside
-    d["string_level"] = {kk: sum(1 for c in cases if c["kind"] == kk) for kk in ("std", "expand", "equiv", "balstr", "fixaam", "norm")}
+    d["string_level"] = {kk: sum(1 for c in cases if c["kind"] == kk) for kk in ("std", "expand", "equiv", "balstr", "fixaam", "norm", "subgraph")}
     d["std_strings"] = sum(1 + len(c.get("variants", [])) for c in cases if c["kind"] == "std")
     d["expand_unmapped_atoms"] = {}
     for c, o in zip(cases, obss):
@@ -1248,6 +1270,13 @@ def gen_cases(tier, rng):
         cases.append(dict(kind="equiv", rsmis=rs, method="RC", src="%s#%d" % (s, i)))
         if n_ % 2 == 0:
             cases.append(dict(kind="equiv", rsmis=rs[:4], method="ITS", src="%s#%d" % (s, i)))
+    # NormalizeAAM.extract_subgraph / reset_indices_and_atom_map on parsed sides: random, empty, full, foreign and repeated indices
+    for n_, (s, i, t) in enumerate(eq_pool):
+        ids = sorted(R.map_numbers(t))
+        if not ids:
+            continue
+        for keep in (rng.sample(ids, max(1, len(ids) // 2)), [], list(reversed(ids)), rng.sample(ids, min(3, len(ids))) * 2 + [max(ids) + 5, 0]):
+            cases.append(dict(kind="subgraph", rsmi=t, side=n_ % 2, keep=keep, src="%s#%d" % (s, i)))
     cases.append(dict(kind="equiv", rsmis=[], method="RC", src="empty"))
     cases.append(dict(kind="equiv", rsmis=[HAND_CANON[2]], method="RC", src="single"))
     odd = ["a>>b>>c", "xx>>yy", "C>C", "", "C>>>C", ">>>>", "C.>>C", "[H+].[OH-]>>O>>O"]
